@@ -8,15 +8,17 @@
 // so an empty Records list is answered like any other): call k of a batch is answered by step k
 // of that batch's script, after the identities (Data bytes, PartitionKey) of the request's records
 // have been COPIED, so a later in-place rewrite of pri.Records cannot change what was observed.
-//   err   -> (nil, plain error)            perm -> (nil, backoff.Permanent(error))
-//   nil   -> (&PutRecordsOutput{}, nil)    FailedRecordCount == nil
-//   resp  -> FailedRecordCount = cnt and one PutRecordsResultEntry per element of codes, with an
-//            ErrorCode where codes[i]; cnt and codes are independent, so ill-formed answers
-//            (count 0 with codes, count > 0 without, wrong length) can be given.  The ErrorCode
-//            STRING of a failing entry is names[i] (default ProvisionedThroughputExceededException):
-//            the documented per-record codes "ProvisionedThroughputExceededException" and
-//            "InternalFailure", or any other string.  The model and the property treat every
-//            non-nil code as a failure.
+//
+//	err   -> (nil, plain error)            perm -> (nil, backoff.Permanent(error))
+//	nil   -> (&PutRecordsOutput{}, nil)    FailedRecordCount == nil
+//	resp  -> FailedRecordCount = cnt and one PutRecordsResultEntry per element of codes, with an
+//	         ErrorCode where codes[i]; cnt and codes are independent, so ill-formed answers
+//	         (count 0 with codes, count > 0 without, wrong length) can be given.  The ErrorCode
+//	         STRING of a failing entry is names[i] (default ProvisionedThroughputExceededException):
+//	         the documented per-record codes "ProvisionedThroughputExceededException" and
+//	         "InternalFailure", or any other string.  The model and the property treat every
+//	         non-nil code as a failure.
+//
 // A batch's script has budget+1 steps.  Should the worker call again (it must not), the fake keeps
 // every record of the request failed (throttled), and at call 10*(budget+1) it cancels
 // TerminateCtx itself and records that it CUT the run: a worker that retries for ever is thereby
@@ -62,9 +64,9 @@ import (
 // ---- case ----
 
 type kstep struct {
-	Kind   string `json:"kind"` // err | perm | nil | resp
-	Cnt    uint64 `json:"cnt,omitempty"`
-	Codes  []bool `json:"codes,omitempty"`
+	Kind  string `json:"kind"` // err | perm | nil | resp
+	Cnt   uint64 `json:"cnt,omitempty"`
+	Codes []bool `json:"codes,omitempty"`
 	// ErrorCode string of entry i where codes[i] (missing or "" = ProvisionedThroughputExceededException)
 	Names  []string `json:"names,omitempty"`
 	Cancel bool     `json:"cancel,omitempty"`
@@ -159,16 +161,16 @@ type kobs struct {
 // ---- fakes ----
 
 type runState struct {
-	mu        sync.Mutex
-	sh        shutdown.ShutdownHandler
-	c         *kcase
-	cur       int  // batch being offered
-	armed     bool // next TimeSource read is `start := ts.UnixNano()` of batch cur
-	taken     map[int]bool
-	calls     map[int][]kcall
-	cut       map[int]bool
-	stray     int // calls outside any offered batch
-	panicMsg  string
+	mu       sync.Mutex
+	sh       shutdown.ShutdownHandler
+	c        *kcase
+	cur      int  // batch being offered
+	armed    bool // next TimeSource read is `start := ts.UnixNano()` of batch cur
+	taken    map[int]bool
+	calls    map[int][]kcall
+	cut      map[int]bool
+	stray    int // calls outside any offered batch
+	panicMsg string
 }
 
 type fakeTime struct{ rs *runState }
